@@ -83,7 +83,7 @@ func init() {
 		Level:       "fault_enumeration",
 		Workers:     16,
 		CaseTimeout: 180e9,
-		Rule: fmt.Sprintf("%d scenario variants (counter / list / document / map; 3 clients: create + two subscribers, or all three entering with subscribe-or-create plus a fourth client whose Create of the existing key must stay refused and must never yield a second datatype; pushes of 1-3 operations, a transaction, pull-only syncs). Phase 1 profiles the fault-free run and numbers every database command issued while serving each request, including those of the background snapshot goroutine. Phase 2 re-runs the scenario once per command index k and per fault kind: fail(k) = that command answers {ok:0}; sever(k) = the connection is closed before executing it and the server incarnation is dead from then on; sever-after(k) = it is executed, the reply is lost and the incarnation is dead; for sever kinds a new incarnation is started on the same store; the script continues and all clients retry to quiescence. Process cases (quick: a sample of command indexes of one variant; thorough: every command index of two variants): the server is the repository's own binary running as a child process behind the grpc front, clients are SDK clients calling Client.Sync() over real grpc, and the server dies by SIGKILL when the stand-in sees command k (before executing it / after executing it with the reply lost); a new process starts on the same store (same ports) and everybody retries. Oracle: the faulted call returns (error or not) - no panic, no hang; a server process that ends by itself is a violation; every operation whose acknowledgement a client had applied is stored; store invariants of C06 hold after recovery (operation documents beyond the recorded end of log are reported); retries reach quiescence; every operation issued on a subscribed datatype is stored exactly once and all replicas, the server's rebuild and the replay of the stored log agree (i.e. the state is the one determined by the issued operations, as if no failure had happened); ",
+		Rule: fmt.Sprintf("%d scenario variants (counter / list / document / map; 3 clients: create + two subscribers, or all three entering with subscribe-or-create plus a fourth client whose Create of the existing key must stay refused and must never yield a second datatype; pushes of 1-3 operations, a transaction, pull-only syncs). Phase 1 profiles the fault-free run and numbers every database command issued while serving each request, including those of the background snapshot goroutine. Phase 2 re-runs the scenario once per command index k and per fault kind: fail(k) = that command answers {ok:0}; sever(k) = the connection is closed before executing it and the server incarnation is dead from then on; sever-after(k) = it is executed, the reply is lost and the incarnation is dead; for sever kinds a new incarnation is started on the same store; the script continues and all clients retry to quiescence. Process cases (quick: a sample of command indexes of one variant; thorough: every command index of two variants): the server is the repository's own binary running as a child process behind the grpc front, clients are SDK clients calling Client.Sync() over real grpc, and the server dies by SIGKILL when the stand-in sees command k (before executing it / after executing it with the reply lost); a new process starts on the same store (same ports) and everybody retries. Collection cases: every database command issued while serving CreateCollection / ResetCollection of a second collection is the fault point in turn (same three kinds); an acknowledged creation has stored the collection and clients can enter it at once, an acknowledged reset has removed every datatype / operation / snapshot / client document of the collection and its user collection, a refused one succeeds when retried; the bystander collection's documents never change; afterwards new clients create the same key again and converge. Oracle: the faulted call returns (error or not) - no panic, no hang; a server process that ends by itself is a violation; every operation whose acknowledgement a client had applied is stored; store invariants of C06 hold after recovery (operation documents beyond the recorded end of log are reported); retries reach quiescence; every operation issued on a subscribed datatype is stored exactly once and all replicas, the server's rebuild and the replay of the stored log agree (i.e. the state is the one determined by the issued operations, as if no failure had happened); ",
 			len(c08Variants)) +
 			"non-trivial = the fault hit a write command (insert / update / delete / findAndModify) or fell between the two writes of one commit; distinct = (variant, command index, fault kind)",
 		Assumptions: []string{
@@ -92,7 +92,7 @@ func init() {
 			"MongoDB is the in-memory stand-in; a failed command has no partial effect; insert / update are atomic per command",
 		},
 		Trusted:    []string{"fakemongo (fault plan, command log)", "fakemqtt", "harness transport (direct mode)"},
-		Cases:      func(t string) int { return c08InProcCases(t) + c08ProcCases(t) },
+		Cases:      func(t string) int { return c08InProcCases(t) + c08ProcCases(t) + c08ColCases(t) },
 		Floor:      func(t string) int { return tierN(t, 60, 150) },
 		Exhaustive: func(t string) bool { return true },
 		Run:        runC08,
@@ -247,7 +247,9 @@ func c08Execute(c *core.Case, variant, k int, kind string, log bool) (*c08run, s
 func c08InProcCases(t string) int { return tierN(t, 3, len(c08Variants)) * c08MaxCommands * len(c08Kinds) }
 
 func runC08(c *core.Case) *core.Result {
-	if n := c08InProcCases(c.Tier); c.Index >= n {
+	if n := c08InProcCases(c.Tier); c.Index >= n+c08ProcCases(c.Tier) {
+		return runC08Col(c, c.Index-n-c08ProcCases(c.Tier))
+	} else if c.Index >= n {
 		return runC08Proc(c, c.Index-n)
 	}
 	i := c.Index
